@@ -5,10 +5,10 @@ Collect / ReturnList / ReturnDict / Yield*), spec/MC_ParallelRunner.tla (generat
 spec/Trace_ParallelRunner.tla (trace acceptance).
 
 Role A: TLC checks Correct / ExactlyOnce / StoreInv over every dispatch/complete/collect
-interleaving for n <= 5 jobs, <= 3 workers, all four call variants, and refutes Correct
-for the "place by arrival position" collector (negative control).
+interleaving for n <= 5 jobs (quick tier: 4), <= 3 workers, all four call variants, and
+(thorough tier) refutes Correct for the "place by arrival position" collector.
 
-Binding B: TLC enumerates (model checking, n <= 5, w <= 5) or draws (-simulate, n <= 64,
+Binding B: TLC enumerates (model checking, n <= 5, w <= 5; quick tier 4, 4) or draws (-simulate, n <= 64,
 w <= 16) behaviours of the spec and prints job count, worker count, call variant, the
 completion order it chose, the inputs and the value the SPEC returns; a second generator
 draws random sleep ranks.  Every record is run through the REAL accelforge.util.parallel.
@@ -355,11 +355,12 @@ def run(ck: Check):
                        "dict results are compared including key order (the title's 'job order' = input key order)"]
 
     # ---- role A
-    ck.tlc_expect_ok("ParallelRunner", "ParallelRunner_design.cfg", timeout=1800,
+    ck.tlc_expect_ok("ParallelRunner", "ParallelRunner_design.cfg" if thorough else "ParallelRunner_design_q.cfg",
+                     timeout=1800,
                      required_actions=("DispatchAny", "CompleteAny", "Collect", "ReturnList", "ReturnDict",
                                        "YieldOrdered", "YieldUnordered", "Exhausted"))
-    ck.extra["role_A"] = ("ParallelRunner: Correct, AtMostOnce, ExactlyOnce, StoreInv hold for n<=5 jobs, <=3 "
-                          "workers, any dispatch order, all interleavings, 4 call variants")
+    ck.extra["role_A"] = ("ParallelRunner: Correct, AtMostOnce, ExactlyOnce, StoreInv hold for n<=%d jobs, <=3 "
+                          "workers, any dispatch order, all interleavings, 4 call variants" % (5 if thorough else 4))
     if thorough:
         neg = ck.tlc("ParallelRunner", "ParallelRunner_byarrival.cfg", timeout=600)
         if neg.ok or "Correct" not in (neg.violated or ""):
@@ -370,7 +371,7 @@ def run(ck: Check):
 
     # ---- binding B: generators
     exh = _gen(ck, "MC_ParallelRunner_exh.cfg" if thorough else "MC_ParallelRunner_exh4.cfg", workers=8)
-    nsim = 1500 if thorough else 150
+    nsim = 1000 if thorough else 120
     sim = _gen(ck, "MC_ParallelRunner_sim.cfg", simulate="num=%d" % nsim, depth=400, seed=ck.seed, workers=1)
     _t(ck, "generators done: %d exhaustive, %d simulated schedules with sleep ranks" % (len(exh), len(sim)))
 
@@ -396,9 +397,9 @@ def run(ck: Check):
     if thorough:
         loky_ws = list(range(1, 17))
     else:
-        loky_ws = sorted({1, 2, 16} | set(rng.sample(range(3, 16), 2)))
-    dict_ws = set(loky_ws) if thorough else {w for w in loky_ws if w <= 4}
-    per_w = 40 if thorough else 8
+        loky_ws = sorted({2, 16} | set(rng.sample(range(3, 16), 2)))
+    dict_ws = {1, 2, 3, 4, 8, 16} if thorough else {w for w in loky_ws if w <= 4}
+    per_w = 20 if thorough else 6
     for w in loky_ws:
         try:
             _warm("loky", w, w in dict_ws)
@@ -452,8 +453,6 @@ def run(ck: Check):
                      % (case["n"], case["mode"], case["w"], backend, json.dumps(got)[:300],
                         json.dumps(case["expected"])[:300], "accepts" if ok_c else "REJECTS", ends[:70]),
                      {"case": case, "backend": backend, "how": how, "got": got, "events": events})
-    if len(accepted) + nb < len(traces) - nb and nb == 0:
-        raise Machinery("trace bookkeeping inconsistent")
     for case_i in (exh[len(exh) // 2], sim[len(sim) // 3], sim[-1]):
         ck.sample({"n": case_i["n"], "w": case_i["w"], "mode": case_i["mode"], "order": case_i["order"][:64],
                    "rank": case_i["rank"][:64], "expected": case_i["expected"][:8]})
@@ -463,8 +462,10 @@ def run(ck: Check):
     ck.extra["traces_accepted_by_TLC"] = len(accepted)
     ck.extra["exhaustive_parts"] = ["all completion orders feasible with in-order dispatch for n<=%d, w<=5, "
                                     "4 variants (threading backend, imposed by barriers)" % (5 if thorough else 4)]
-    ck.extra["not_covered"] = ("schedule hook inside joblib (no hook in /repo); Apalache inductive run; "
-                               "loky dict variant with > 4 workers only in the thorough tier")
+    ck.extra["not_covered"] = ("schedule hook inside joblib (no hook in /repo); Apalache inductive run; on loky "
+                               "the dict variant runs with <= 4 workers in the quick tier and with 1,2,3,4,8,16 "
+                               "workers in the thorough tier (all 1..16 on the threading backend); pools larger "
+                               "than the job count cannot impose an order with sleeps when joblib batches jobs")
     ck.exhaustive = False
 
 
@@ -489,7 +490,7 @@ def replay(path):
         case["n"], case["w"], case["mode"], backend, case.get("order") or case.get("rank")))
     print("spec returns  :", case["expected"])
     rc = 0
-    for attempt in range(5):
+    for attempt in range(3):
         got, events = runner.execute(case, backend, how, **kw)
         trace = {"n": case["n"], "mode": case["mode"], "events": events, "ret": got}
         acc = validate_traces(ck, [trace], "replay")
@@ -503,5 +504,5 @@ def replay(path):
     if rc:
         print("VIOLATION property=C32 replay=%s" % path)
     else:
-        print("no disagreement on this case in 5 attempts")
+        print("no disagreement on this case in 3 attempts")
     return rc
